@@ -98,3 +98,11 @@ Theorem C03_auer_width_row_is_displayed_row : forall S pt, In pt S ->
   assoc pt (auer_beta_row S) = assoc pt (auer_update_row S) /\ assoc pt (auer_beta_row S) = Some (index pt S).
 Proof. intros S pt H. split; [exact (auer_row_matches_region S pt H) | exact (auer_row_is_modeling_position S pt H)]. Qed.
 Print Assumptions C03_auer_width_row_is_displayed_row.
+
+(* VOGP_AD: behind its depth gate (latched), the regenerated covering is VOGP's covering — same loop nest, same slack;
+   with the gate closed nothing enters P *)
+Theorem C03_vogp_ad_covering_is_vogp_covering_behind_the_gate : forall E depth maxd enabled S P,
+  vogp_ad_epsiloncovering E depth maxd enabled S P [] =
+    if vogp_ad_gate depth maxd enabled S then (true, vogp_epsiloncovering E S P []) else (enabled, (S, P, [])).
+Proof. reflexivity. Qed.
+Print Assumptions C03_vogp_ad_covering_is_vogp_covering_behind_the_gate.
